@@ -26,6 +26,9 @@ def reads_query_map(b, sl):
     return any(re.search(r"HashMap::<K, V, S, A>::get$", t.get("callee", "")) and b.slice_op(t["args"][0]).has_field("query_parameters") for _, t in sl.calls) or sl.has_field("query_parameters")
 
 
+PARTIAL = r"(split\w*|rsplit\w*|find|rfind|position|trim\w*|strip_\w+|truncate|pop|drain|replace\w*|to_(ascii_)?(lower|upper)case|from_utf8\w*|chars|char_indices)$|Iterator::(take|skip|filter|nth|last|step_by|take_while|skip_while)$|str>::get$|slice::<impl \[T\]>::(get|first|last|split_first|split_last)$"
+
+
 @M.rule("C02-R1", "query-carrier values reach decoded-domain sinks only through the decoder")
 def r1(ctx):
     b = ctx.fn(FQ)
@@ -68,6 +71,12 @@ def r1(ctx):
         else:
             n += 1
             yield PASS("C02-R1", "from_query/%s/decoded" % name, "every def-use path from self.query_parameters to `%s` passes unescape_uri_encoding" % name, [site(b, blk, name)])
+        if name in ("timestamp_str", "credential", "session_token"):
+            part = [c_ for c_ in full.callee_names() if re.search(PARTIAL, c_)] + [t_["callee"] for _, t_ in full.calls if re.search(r"ops::Index(Mut)?::index(_mut)?$", t_["callee"]) and "Range" in t_.get("resolved_full", "")]
+            if part:
+                yield VIOL("C02-R1", "from_query/%s/whole-value" % name, "`%s` is not the whole decoded first value of its parameter (through %s)" % (name, sorted(set(part))), where=b.span_of_block(blk))
+            else:
+                yield PASS("C02-R1", "from_query/%s/whole-value" % name, "`%s` = unescape(whole first value)" % name, [site(b, blk, name)])
     if len(sinks) < 5:
         yield MISSING("C02-R1", "from_query/floor", "only %d of the 5 source->sink pairs found" % len(sinks))
     # the decoder decodes: result derives from from_str_radix(.., 16) of the two bytes after '%'
@@ -78,6 +87,8 @@ def r1(ctx):
         yield VIOL("C02-R1", "unescape_uri_encoding/hex", "decoder does not parse the escape as base-16", where=loc(d.j["span"]))
     else:
         yield PASS("C02-R1", "unescape_uri_encoding/hex", "u8::from_str_radix(two bytes after '%', 16)", [loc(d.j["span"])])
+
+
 
 
 @M.rule("C02-R1h", "header-carrier values come from the raw header bytes (latin1), credential/signature/signed-headers from the like-named parameters")
@@ -120,6 +131,13 @@ def r1h(ctx):
         yield VIOL("C02-R1h", "from_header/timestamp/source", "timestamp is read from %s" % sorted(tkeys, key=str), where=loc(ag[2]["span"]))
     else:
         yield PASS("C02-R1h", "from_header/timestamp/source", "<= self.headers[x-amz-date | date][0] via latin1_to_string", [loc(ag[2]["span"])])
+    # the timestamp text is the WHOLE first header value: nothing cuts, trims or re-cases it before the ISO-8601 parser
+    # (a decimal comma, an offset or a fraction is part of the instant)
+    part = [c_ for c_ in ts.callee_names() if re.search(PARTIAL, c_)] + [t_["callee"] for _, t_ in ts.calls if re.search(r"ops::Index(Mut)?::index(_mut)?$", t_["callee"]) and "Range" in t_.get("resolved_full", "")]
+    if part or not ts.has_call(r"canonical::latin1_to_string$"):
+        yield VIOL("C02-R1h", "from_header/timestamp/whole-value", "the date header value is not passed on whole (through %s): part of a well-formed timestamp (fraction after a decimal comma, offset) is cut off or altered" % (sorted(set(part)) or "something other than latin1_to_string"), where=loc(ag[2]["span"]))
+    else:
+        yield PASS("C02-R1h", "from_header/timestamp/whole-value", "timestamp text = latin1_to_string(whole first value)", [loc(ag[2]["span"])])
     tok = b.calls(r"SigV4AuthenticatorBuilder::session_token$")
     if len(tok) == 1:
         sl = b.slice_op(tok[0][1]["args"][1])
